@@ -936,7 +936,12 @@ func (k *kase) perform(it *Item) {
 			case si := <-k.subDone:
 				if !si.err {
 					k.active = si.w
-					k.waitFifo(si.w, si.backlog)
+					if !k.quitClosed {
+						// (with the quit channel closed the goroutine leaves at
+						// its next select and cancels the subscription: the
+						// backlog may never arrive)
+						k.waitFifo(si.w, si.backlog)
+					}
 					if k.inWait() {
 						k.mode = "wait"
 					} else {
@@ -1185,7 +1190,7 @@ func (g *gen) waitUpdate(k *kase) Item {
 		it.Addrs = []int{1 + g.r.Intn(nAddr)}
 		it.Inputs = []InRef{g.randRef(k)}
 	}
-	if g.r.Intn(100) < 25 && k.toldH >= 1 {
+	if g.r.Intn(100) < 35 && k.toldH >= 1 {
 		it.Rewind = 1 + g.r.Int63n(k.toldH+1)
 	}
 	return it
@@ -1451,6 +1456,11 @@ func (g *gen) preamble(k *kase) {
 	}
 	if r.Intn(100) < 30 {
 		st.StartT = g.plan[r.Intn(n)].Time
+	}
+	if g.profile == "waiting" && r.Intn(100) < 40 && st.Start >= 1 {
+		// a start time between the blocks below the start block: a
+		// rewind during the wait moves the rescan across it
+		st.StartT = g.plan[r.Intn(int(st.Start))].Time
 	}
 	if r.Intn(100) < 8 {
 		st.End = st.Start + 1 + int64(r.Intn(n))
@@ -1781,7 +1791,7 @@ func main() {
 	rep.Histogram["distinct_signatures"] = len(sigs)
 	rep.Evaluations = len(hs)
 	rep.DistinctNontrivial = len(nontrivial)
-	rep.Rule = "histories of chain events (extend / roll back, reorganisations of any depth), Start, Update calls (addresses, inputs, rewind), results of the gated ChainSource calls (ok / fail / hash-not-found), notification deliveries and retry-timer firings, executed on the real rescan goroutine; non-trivial = at least one connected callback carrying transactions, a disconnected callback, a retry firing or a received update; distinct = distinct signature of item kinds and callbacks"
+	rep.Rule = "histories of chain events (extend / roll back, reorganisations of any depth), Start, Update calls (addresses, inputs, rewind), results of the gated ChainSource calls (ok / fail / hash-not-found), notification deliveries, retry-timer firings, IsCurrent flips and quit, executed on the real rescan goroutine from the first BestBlock call of waitForBlocks on (about a third of the histories make the rescan wait there and issue Update calls during the wait); non-trivial = at least one connected callback carrying transactions, a disconnected callback, a retry firing or a received update; distinct = distinct signature of item kinds and callbacks"
 	for i := 0; i < len(hs) && i < 3; i++ {
 		rep.Samples = append(rep.Samples, hs[i])
 	}
